@@ -18,15 +18,15 @@ func chanObj(s *Sched, ch any) *Obj {
 
 func isClosed(s *Sched, ch reflect.Value) bool {
 	p := ch.Pointer()
-	if c, ok := s.Vals["closed"]; ok {
-		if c.(map[uintptr]bool)[p] {
-			return true
+	if ch.Type().ChanDir()&reflect.RecvDir == 0 {
+		// send-only view: closedness is only known from Close calls seen by the scheduler. (The table is keyed by
+		// address; it is not consulted for receivable channels because addresses are reused after collection.)
+		if c, ok := s.Vals["closed"]; ok {
+			return c.(map[uintptr]bool)[p]
 		}
-	}
-	if ch.Len() > 0 {
 		return false
 	}
-	if ch.Type().ChanDir()&reflect.RecvDir == 0 {
+	if ch.Len() > 0 {
 		return false
 	}
 	// probe: with len==0 and no concurrent sender a successful receive means closed
